@@ -63,6 +63,7 @@ def bind_roles(repo: Repo) -> Roles:
         n for n in walk_local(f)
         if isinstance(n, ast.For) and isinstance(n.iter, ast.Name) and n.iter.id == r.CITS
     ]
+    loops.sort(key=lambda n: n.lineno)
     r.folds = loops
     r.FOLD = loops[0] if loops else None
     r.CIT = r.FOLD.target.id if r.FOLD is not None and isinstance(r.FOLD.target, ast.Name) else None
